@@ -3644,3 +3644,64 @@ func ruleCachePendingShared(w *World, r *Report) {
 	}
 	r.ok("CACHE-PENDING-SHARED", key, w.PosOf(allocs[0]), "every new entry is in the table before the table lock is released (CachePending on)")
 }
+
+// CRON-NEXT-ZERO (C15, C16): "no occurrence left" is not "due now".
+func ruleCronNextZero(prop string) ruleFn {
+	return func(w *World, r *Report) {
+		r.Rule("CRON-NEXT-ZERO", "cronexpr's Expression.Next returns the zero time when the expression has no occurrence after the given instant (e.g. a year field in the past).  Every call of it in rulio's crons tests its result with IsZero, and the store of the due time (or of a time computed from it) is control-dependent on that test: a zero due time is before every `now`, so the job is due at once, reschedules to the zero time again and fires in a tight loop", 2)
+		n := 0
+		for _, fn := range w.Funcs {
+			rel := w.RelPkg(fn)
+			if (rel != "cron" && rel != "crolt") || isTestFile(w, fn) {
+				continue
+			}
+			allInstrs(fn, func(in ssa.Instruction) {
+				c, ok := in.(*ssa.Call)
+				if !ok {
+					return
+				}
+				o := calleeObj(c.Common())
+				if o == nil || o.Name() != "Next" || o.Pkg() == nil || !strings.HasSuffix(o.Pkg().Path(), "gorhill/cronexpr") {
+					return
+				}
+				n++
+				key := "fn=" + fname(fn) + " call=Expression.Next"
+				fromNext := func(v ssa.Value) bool { return v == ssa.Value(c) }
+				isZeroOfNext := func(v ssa.Value) bool {
+					zc, ok := v.(*ssa.Call)
+					if !ok {
+						return false
+					}
+					zo := calleeObj(zc.Common())
+					if zo == nil || zo.Name() != "IsZero" || zo.Pkg() == nil || zo.Pkg().Path() != "time" || len(zc.Common().Args) == 0 {
+						return false
+					}
+					return dependsOnFS(zc.Common().Args[0], fromNext)
+				}
+				// the stores that keep the result
+				var stores []ssa.Instruction
+				allInstrs(fn, func(x ssa.Instruction) {
+					if st, ok := x.(*ssa.Store); ok {
+						if _, _, _, isField := fieldOf(st.Addr); isField && dependsOn(st.Val, fromNext) {
+							stores = append(stores, x)
+						}
+					}
+				})
+				if len(stores) == 0 {
+					r.exempt("CRON-NEXT-ZERO", key, w.PosOf(in), "the result is not stored in a field here: shape not recognised, not decided")
+					return
+				}
+				for _, st := range stores {
+					if !controlDependsOn(fn, st, isZeroOfNext) {
+						r.violation("CRON-NEXT-ZERO", key, w.PosOf(st), "the due time is stored without a test for the zero time (`no occurrence left`): such a job is due immediately, for ever")
+						return
+					}
+				}
+				r.ok("CRON-NEXT-ZERO", key, w.PosOf(in), "the due time is kept only when it is not the zero time")
+			})
+		}
+		if n == 0 {
+			r.exempt("CRON-NEXT-ZERO", "call=Expression.Next", "", "no call of cronexpr's Expression.Next in cron or crolt: shape not recognised, not decided")
+		}
+	}
+}
